@@ -315,10 +315,9 @@ func execC08(c *child.Ctx, k cellCase, cj []byte) {
 	m.Multiple = k.Sig.CNR%3 == 1
 	m.PadBytes = []int{0, 0, 1, 3, 4, 9}[k.Sig.CNR%6]
 	frame := ref.Frame(ref.EncodeMSM(m))
-	lvl := slog.LevelInfo
-	if k.Sig.Lock%2 == 1 {
-		lvl = slog.LevelDebug
-	}
+	// the values do not depend on how much is logged either: Info, Debug, a trace
+	// level below Debug, Warn, Error
+	lvl := []slog.Level{slog.LevelInfo, slog.LevelDebug, slog.LevelInfo, slog.LevelDebug - 4, slog.LevelWarn, slog.LevelDebug, slog.LevelError, slog.LevelDebug - 8}[k.Sig.Lock%8]
 	if msm7 {
 		dm, err := msm7msg.GetMessage(frame, lvl)
 		if err != nil || len(dm.Signals) != 1 || len(dm.Signals[0]) != 1 {
